@@ -29,7 +29,7 @@ structure Session where
   shapes : List Shape := []
   slots : Std.HashMap Nat Obj := {}
   chain : Std.HashMap String (List (Val F)) := {}   -- running target of `updchain`, per shape
-  worlds : List (Option (World F)) := []           -- bevy: one world per system order (index = 2*chainFirst + qFirst)
+  worlds : List (Option (List (World F))) := []    -- bevy: per system order (index = 2*chainFirst + qFirst) the entities of the App
 
 def fb (s : String) : F := Float32.ofBits (UInt32.ofNat s.toNat!)
 def bits (x : F) : String := toString x.toBits.toNat
@@ -151,9 +151,6 @@ def showWorld (w : World F) (evs : List AnimState) : String :=
     | none => "-"
   s!"{stateIdx a.state} {a.posNs} {if a.enabled then 1 else 0} {showVals w.compP} | key={key} | ev={ev} | {q}"
 
-def showVariants (ws : List (Option (World F))) (evs : List (List AnimState)) : String :=
-  " || ".intercalate ((ws.zip evs).map fun (ow, ev) => match ow with | some wd => showWorld wd ev | none => "panic")
-
 /-! ### macro ops: token encoding shared with harness/macro_harness -/
 
 def parseFields (s : String) : List (String × String) :=
@@ -235,6 +232,46 @@ def asMerged : Obj → Option (Shape × Merged F)
   | .mg sh m => some (sh, m)
   | .an _ _ => none
   | .qt _ _ _ _ => none
+
+/-- an entity from the arguments of `bapp` / `bent`:
+`<a> <b> <tlslot|-> <enabled> <sel: none | s0,s1,s2,s3> <key> <chain: none | a>b,c>d> <q: none | z,tlslot|->` -/
+def mkWorld (st : Session) (w : Array String) : World F :=
+  let getP (tok : String) : Option (Merged F) :=
+    if tok == "-" then none else ((st.slots.get? tok.toNat!).bind asMerged).map (·.2)
+  let compP : List (Val F) := [.num (fb w[1]!), .num (fb w[2]!)]
+  let animP : BAnimator F := { enabled := w[4]! != "0", posNs := 0, timeline := getP w[3]!, state := .none }
+  let sel : Option (Selector F) :=
+    if w[5]! == "none" then none else
+    let toks := w[5]!.splitOn ","
+    let tls := (toks.zipIdx.filterMap fun (t, i) => (getP t).map fun m => (i, m))
+    some { timelines := tls, key := w[6]!.toNat!, prevKey := none }
+  let chain : Option (List (Nat × Nat)) :=
+    if w[7]! == "none" then none else
+    -- HashMap insertion: a later pair for the same key replaces the earlier one
+    let pairs := (w[7]!.splitOn ",").filterMap fun p => match p.splitOn ">" with | [x, y] => some (x.toNat!, y.toNat!) | _ => none
+    some pairs.reverse
+  let (compQ, animQ) : List (Val F) × Option (BAnimator F) :=
+    if w[8]! == "none" then ([], none) else
+    match w[8]!.splitOn "," with
+    | [z, t] => ([.num (fb z)], some { enabled := true, posNs := 0, timeline := getP t, state := .none })
+    | _ => ([], none)
+  { compP := compP, animP := animP, sel := sel, chain := chain, compQ := compQ, animQ := animQ, pending := [] }
+
+/-- per system order: the entities' observations joined by ` ## ` (no events outside a frame) -/
+def showVariants (ws : List (Option (List (World F)))) : String :=
+  " || ".intercalate (ws.map fun o => match o with
+    | some es => " ## ".intercalate (es.map fun wd => showWorld wd [])
+    | none => "panic")
+
+/-- a trailing `@k` selects entity k of the App (default 0) -/
+def splitEnt (w : Array String) : Array String × Nat :=
+  match w.back? with
+  | some t => if t.startsWith "@" then (w.pop, (t.drop 1).toString.toNat!) else (w, 0)
+  | none => (w, 0)
+
+def onEnt (ws : List (Option (List (World F)))) (k : Nat) (f : World F → World F) : List (Option (List (World F))) :=
+  ws.map fun o => o.map fun es => es.zipIdx.map fun (wd, i) => if i == k then f wd else wd
+
 
 def runLine (st : Session) (line : String) : Session × String := Id.run do
   let w := (line.splitOn " ").filter (· ≠ "") |>.toArray
@@ -478,76 +515,73 @@ def runLine (st : Session) (line : String) : Session × String := Id.run do
     | .ok o =>
       let anim := ",".intercalate (o.animated.map fun (n, t) => s!"{n}:{t}")
       let j := fun (l : List String) => ",".intercalate l
-      return (st, s!"derive[target={o.targetName};remote={lastSegment o.remotePath};vfromty={o.remotePath};tl={o.timelineName};data={o.dataName};builder={o.builderName};vis={o.vis};anim={anim};setters={j o.setters};kfrom={j o.keyframeFromCopies};vfrom={j o.valuesFromCopies};upd={j o.updateAssigns};start={j o.startAssigns};fake={if o.fakeAccess then 1 else 0}]")
+      return (st, s!"derive[target={o.targetName};remote={lastSegment o.remotePath};vfromty={o.remotePath};tl={o.timelineName};data={o.dataName};builder={o.builderName};vis={o.vis};anim={anim};setters={j o.setters};kfrom={j o.keyframeFromCopies};vfrom={j o.valuesFromCopies};upd={j o.updateAssigns};start={j o.startAssigns};fake={if o.fakeAccess then 1 else 0};init={j (o.animated.map fun (n, _) => s!"{n}<{n}")}]")
     | .error _ => return (st, "reject")
   | "bapp" =>
-    let getP (tok : String) : Option (Merged F) :=
-      if tok == "-" then none else ((st.slots.get? tok.toNat!).bind asMerged).map (·.2)
-    let compP : List (Val F) := [.num (fb w[1]!), .num (fb w[2]!)]
-    let animP : BAnimator F := { enabled := w[4]! != "0", posNs := 0, timeline := getP w[3]!, state := .none }
-    let sel : Option (Selector F) :=
-      if w[5]! == "none" then none else
-      let toks := w[5]!.splitOn ","
-      let tls := (toks.zipIdx.filterMap fun (t, i) => (getP t).map fun m => (i, m))
-      some { timelines := tls, key := w[6]!.toNat!, prevKey := none }
-    let chain : Option (List (Nat × Nat)) :=
-      if w[7]! == "none" then none else
-      -- HashMap insertion: a later pair for the same key replaces the earlier one
-      let pairs := (w[7]!.splitOn ",").filterMap fun p => match p.splitOn ">" with | [x, y] => some (x.toNat!, y.toNat!) | _ => none
-      some pairs.reverse
-    let (compQ, animQ) : List (Val F) × Option (BAnimator F) :=
-      if w[8]! == "none" then ([], none) else
-      match w[8]!.splitOn "," with
-      | [z, t] => ([.num (fb z)], some { enabled := true, posNs := 0, timeline := getP t, state := .none })
-      | _ => ([], none)
-    let wd : World F := { compP := compP, animP := animP, sel := sel, chain := chain, compQ := compQ, animQ := animQ, pending := [] }
-    -- bevy leaves the order of (chain, select) and of (animate<Q>, chain) open: keep one world per order;
+    let wd := mkWorld st w
+    -- bevy leaves the order of (chain, select) and of (animate<Q>, chain) open: keep one App per order;
     -- the implementation must follow one of them consistently (checked by the runner)
-    return ({ st with worlds := [some wd, some wd, some wd, some wd] }, showVariants [some wd, some wd, some wd, some wd] [[], [], [], []])
+    let ws := [some [wd], some [wd], some [wd], some [wd]]
+    return ({ st with worlds := ws }, showVariants ws)
+  | "bent" =>
+    -- one more animated entity in the same App
+    let wd := mkWorld st w
+    let ws := st.worlds.map fun ow => ow.map fun es => es ++ [wd]
+    return ({ st with worlds := ws }, showVariants ws)
   | "frame" =>
-    let res := st.worlds.zipIdx.map fun (ow, i) =>
+    let res : List (Option (List (World F × List AnimState))) := st.worlds.zipIdx.map fun (ow, i) =>
       match ow with
-      | none => (none, [])
-      | some wd =>
-        match frame wd w[1]!.toNat! (i / 2 == 1) (i % 2 == 1) with
-        | .ok (wd', evP, evQ) => (some wd', evP ++ evQ)
-        | .error _ => (none, [])
-    return ({ st with worlds := res.map (·.1) }, showVariants (res.map (·.1)) (res.map (·.2)))
+      | none => none
+      | some es =>
+        match frameAll es w[1]!.toNat! (i / 2 == 1) (i % 2 == 1) with
+        | .ok r => some (r.map fun (wd', evP, evQ) => (wd', evP ++ evQ))
+        | .error _ => none
+    let ws := res.map fun o => o.map fun r => r.map (·.1)
+    return ({ st with worlds := ws }, " || ".intercalate (res.map fun o => match o with
+      | some r => " ## ".intercalate (r.map fun (wd, ev) => showWorld wd ev)
+      | none => "panic"))
   | "setkey" =>
-    let ws := st.worlds.map fun ow => ow.map fun wd => { wd with sel := wd.sel.map fun s => { s with key := w[1]!.toNat! } }
-    return ({ st with worlds := ws }, showVariants ws [[], [], [], []])
+    let (w, ek) := splitEnt w
+    let ws := onEnt st.worlds ek fun wd => { wd with sel := wd.sel.map fun s => { s with key := w[1]!.toNat! } }
+    return ({ st with worlds := ws }, showVariants ws)
   | "enable" =>
-    let ws := st.worlds.map fun ow => ow.map fun wd => { wd with animP := { wd.animP with enabled := w[1]! == "1" } }
-    return ({ st with worlds := ws }, showVariants ws [[], [], [], []])
+    let (w, ek) := splitEnt w
+    let ws := onEnt st.worlds ek fun wd => { wd with animP := { wd.animP with enabled := w[1]! == "1" } }
+    return ({ st with worlds := ws }, showVariants ws)
   | "breset" =>
-    let ws := st.worlds.map fun ow => ow.map fun wd => { wd with animP := wd.animP.reset }
-    return ({ st with worlds := ws }, showVariants ws [[], [], [], []])
+    let (_, ek) := splitEnt w
+    let ws := onEnt st.worlds ek fun wd => { wd with animP := wd.animP.reset }
+    return ({ st with worlds := ws }, showVariants ws)
   | "settl" =>
+    let (w, ek) := splitEnt w
     let tl := ((st.slots.get? w[1]!.toNat!).bind asMerged).map (·.2)
-    let ws := st.worlds.map fun ow => ow.map fun wd =>
+    let ws := onEnt st.worlds ek fun wd =>
       match tl with
       | some m => { wd with animP := { wd.animP with timeline := some m } }
       | none => wd
-    return ({ st with worlds := ws }, showVariants ws [[], [], [], []])
+    return ({ st with worlds := ws }, showVariants ws)
   | "terminal" =>
+    let (w, ek) := splitEnt w
     let tl := ((st.slots.get? w[1]!.toNat!).bind asMerged).map (·.2)
     let outs := st.worlds.map fun ow =>
-      match ow, tl with
+      match ow.bind (·[ek]?), tl with
       | some wd, some m => (match m.update wd.compP (dec 1000000000 0) with | .ok c => showVals c | .error _ => "panic")
       | some wd, none => showVals wd.compP
       | none, _ => "panic"
     return (st, " || ".intercalate outs)
   | "evalat" =>
+    let (w, ek) := splitEnt w
     let tl := ((st.slots.get? w[1]!.toNat!).bind asMerged).map (·.2)
     let outs := st.worlds.map fun ow =>
-      match ow, tl with
+      match ow.bind (·[ek]?), tl with
       | some wd, some m => (match m.update wd.compP (Num.secsOfNanos w[2]!.toNat!) with | .ok c => showVals c | .error _ => "panic")
       | some wd, none => showVals wd.compP
       | none, _ => "panic"
     return (st, " || ".intercalate outs)
   | "setpos" =>
-    let ws := st.worlds.map fun ow => ow.map fun wd => { wd with animP := { wd.animP with posNs := w[1]!.toNat! } }
-    return ({ st with worlds := ws }, showVariants ws [[], [], [], []])
+    let (w, ek) := splitEnt w
+    let ws := onEnt st.worlds ek fun wd => { wd with animP := { wd.animP with posNs := w[1]!.toNat! } }
+    return ({ st with worlds := ws }, showVariants ws)
   | _ => return (st, "bad-op")
 
 partial def loop (h : IO.FS.Stream) (out : IO.FS.Stream) (st : Session) : IO Unit := do
